@@ -207,3 +207,126 @@ Theorem C02_logicsim_drivers_source_nonvacuous :
   (3 <= List.length (build_ops KV.Proofs.ReuseProofs.ReuseExample.exR true)) /\
   exists so, KV.Model.SimOps.build KV.Proofs.ReuseProofs.ReuseExample.exR (repeat 1%N 10) 1%N true true = Some so.
 Proof. exact KV.Proofs.LogicSimLoop8Example.build_hyps_example. Qed.
+
+(** ---- round 3, second step (Proofs/LogicSimLoopN.v, Proofs/LogicSimSepBuildX.v): the memory-level tie made generic in the number of planes.
+    (a) GATES WITHOUT OUTPUT LINE (op row s_out = tmp_idx: c[o0] and c[t0] are the same view).  [LSN.ops_sepx_b]: every op row is separated
+        as before OR its output location is one of the two scratch locations.  In the second case nothing needs to be known about what the
+        overlapping views compute: every statement of every branch writes c[o0], c[t0] or c[t1] (defined-before-use check of the chain), i.e.
+        only scratch locations, and the model's step writes c_locs[tmp_idx] only -- outside the scratch locations both leave the memory as
+        it was.  ops_sepx_b holds for EVERY build() result (C02_logicsim_separation_build_x; the hypothesis "all ops write circuit
+        lines" of C02_logicsim_separation_build is gone).
+    (b) m == 4.  self.c has mdim = 2 planes per location: there is NO third plane in the signal memory.  The third plane exists only in
+        s[k, pos, 0:3]; s_to_c reads s[0, :, :2] (plane 2 is not looked at), c_to_s writes s[1, :, :2] (plane 2 of s[1] keeps its old
+        content).  [LSN.agree4 lt0 lt1 M m]: location l of M holds firstn 2 (code_bits (nth l m Zero)); [LSN.inv4 m]: every value of the
+        model memory is is4 (0, 1, X, -), on which firstn 2 o code_bits is injective; the invariant is kept by c_prop (conclusion). *)
+From KV Require Proofs.LogicSimLoopN Proofs.LogicSimSepBuildX Proofs.LogicSimLoopNExample.
+Module LSN := KV.Proofs.LogicSimLoopN.
+
+Theorem C02_logicsim_separation_build_x : forall c caps cmin reuse strip so,
+  wf_netlist c -> comb_acyclic c -> (0 < cmin)%N -> KV.Proofs.EndToEnd.gates_known c -> (strip = true -> KV.Proofs.ReuseStrip.forks_ok c) ->
+  KV.Model.SimOps.build c caps cmin reuse strip = Some so -> LSN.ops_sepx_b so = true.
+Proof. exact KV.Proofs.LogicSimSepBuildX.build_ops_sepx. Qed.
+
+(* one iteration, m == 8, extended: separated op rows and op rows that write a scratch location *)
+Theorem C02_logicsim_iteration8x_source_is_model : forall so lt0 lt1, lt0 <> lt1 -> forall o m M,
+  LS8.agree8 lt0 lt1 M m -> KV.Proofs.LogicSimGlue.locs_ok so (List.length m) -> (lt0 < List.length m)%nat -> (lt1 < List.length m)%nat ->
+  LSN.op_sepx_b so lt0 lt1 o = true ->
+  LS8.agree8 lt0 lt1
+    (match chain_find (l_chain loop_cprop8) (field (l_hdr loop_cprop8) (KV.Proofs.LogicSimDriversProofs.row_of o) is_hop) with
+     | Some body => fold_left (exec_stmt 3 (post_of loop_cprop8 (KV.Model.SimOps.so_locs so) (Z.of_nat lt0) (Z.of_nat lt1)
+                                                    (KV.Proofs.LogicSimDriversProofs.row_of o))) body M
+     | None => M
+     end)
+    (KV.Model.LogicSimModel.prop1 Zero KV.Model.LogicSimModel.sem8 so m o).
+Proof. exact LSN.body8x_model. Qed.
+
+Theorem C02_logicsim_loop8x_source_is_model : forall c caps cmin reuse strip so,
+  wf_netlist c -> comb_acyclic c -> (0 < cmin)%N -> KV.Proofs.EndToEnd.gates_known c -> (strip = true -> KV.Proofs.ReuseStrip.forks_ok c) ->
+  KV.Model.SimOps.build c caps cmin reuse strip = Some so -> forall m, List.length m = N.to_nat (KV.Model.SimOps.so_len so) -> forall M,
+  exists lt0 lt1, KV.Model.SimOpsCert.so_loc so (KV.Model.SimOps.so_nlines so + 1) = Some lt0 /\
+    KV.Model.SimOpsCert.so_loc so (KV.Model.SimOps.so_nlines so + 2) = Some lt1 /\ lt0 <> lt1 /\
+    (LS8.agree8 lt0 lt1 M m ->
+     LS8.agree8 lt0 lt1
+       (fst (c_prop_src loop_prop_cpu loop_cprop2_cb loop_cprop4 loop_cprop8 8 (KV.Model.SimOps.so_locs so) (KV.Model.SimOps.so_nlines so)
+               (Z.of_nat (KV.Model.SimOps.so_nlines so + 1)) (Z.of_nat (KV.Model.SimOps.so_nlines so + 2)) None
+               (map KV.Proofs.LogicSimDriversProofs.row_of (KV.Model.SimOps.so_ops so)) M))
+       (KV.Model.LogicSimModel.c_prop Zero KV.Model.LogicSimModel.sem8 so m)).
+Proof. exact KV.Proofs.LogicSimSepBuildX.build_cprop8_source_is_model_x. Qed.
+
+Theorem C02_logicsim_loop4_source_is_model : forall so m M,
+  LSN.ops_sepx_b so = true -> KV.Proofs.LogicSimGlue.locs_ok so (List.length m) -> LSN.inv4 m ->
+  exists lt0 lt1, KV.Model.SimOpsCert.so_loc so (KV.Model.SimOps.so_nlines so + 1) = Some lt0 /\
+    KV.Model.SimOpsCert.so_loc so (KV.Model.SimOps.so_nlines so + 2) = Some lt1 /\ lt0 <> lt1 /\
+    (LSN.agree4 lt0 lt1 M m ->
+     LSN.agree4 lt0 lt1
+       (fst (c_prop_src loop_prop_cpu loop_cprop2_cb loop_cprop4 loop_cprop8 4 (KV.Model.SimOps.so_locs so) (KV.Model.SimOps.so_nlines so)
+               (Z.of_nat (KV.Model.SimOps.so_nlines so + 1)) (Z.of_nat (KV.Model.SimOps.so_nlines so + 2)) None
+               (map KV.Proofs.LogicSimDriversProofs.row_of (KV.Model.SimOps.so_ops so)) M))
+       (KV.Model.LogicSimModel.c_prop Zero KV.Model.LogicSimModel.sem8 so m) /\
+     LSN.inv4 (KV.Model.LogicSimModel.c_prop Zero KV.Model.LogicSimModel.sem8 so m)).
+Proof. exact LSN.cprop4_source_is_model. Qed.
+
+Theorem C02_logicsim_loop4_source_is_model_build : forall c caps cmin reuse strip so,
+  wf_netlist c -> comb_acyclic c -> (0 < cmin)%N -> KV.Proofs.EndToEnd.gates_known c -> (strip = true -> KV.Proofs.ReuseStrip.forks_ok c) ->
+  KV.Model.SimOps.build c caps cmin reuse strip = Some so -> forall m, List.length m = N.to_nat (KV.Model.SimOps.so_len so) -> forall M, LSN.inv4 m ->
+  exists lt0 lt1, KV.Model.SimOpsCert.so_loc so (KV.Model.SimOps.so_nlines so + 1) = Some lt0 /\
+    KV.Model.SimOpsCert.so_loc so (KV.Model.SimOps.so_nlines so + 2) = Some lt1 /\ lt0 <> lt1 /\
+    (LSN.agree4 lt0 lt1 M m ->
+     LSN.agree4 lt0 lt1
+       (fst (c_prop_src loop_prop_cpu loop_cprop2_cb loop_cprop4 loop_cprop8 4 (KV.Model.SimOps.so_locs so) (KV.Model.SimOps.so_nlines so)
+               (Z.of_nat (KV.Model.SimOps.so_nlines so + 1)) (Z.of_nat (KV.Model.SimOps.so_nlines so + 2)) None
+               (map KV.Proofs.LogicSimDriversProofs.row_of (KV.Model.SimOps.so_ops so)) M))
+       (KV.Model.LogicSimModel.c_prop Zero KV.Model.LogicSimModel.sem8 so m) /\
+     LSN.inv4 (KV.Model.LogicSimModel.c_prop Zero KV.Model.LogicSimModel.sem8 so m)).
+Proof. exact KV.Proofs.LogicSimSepBuildX.build_cprop4_source_is_model. Qed.
+
+(* satisfiable on exD (a circuit WITH a gate without output line: the old check is false, the extended one true): m == 8 and m == 4 loops,
+   and the model step changes the memory *)
+Theorem C02_logicsim_loopx_source_nonvacuous : exists so lt0 lt1,
+  KV.Model.SimOps.build KV.Proofs.LogicSimLoopNExample.exD (repeat 1%N 11) 1%N true false = Some so /\ LS8.ops_sep_b so = false /\ LSN.ops_sepx_b so = true /\
+  (exists o, In o (KV.Model.SimOps.so_ops so) /\ KV.Model.SimOps.s_out o = KV.Model.SimOps.so_nlines so + 1) /\
+  LS8.agree8 lt0 lt1
+    (fst (c_prop_src loop_prop_cpu loop_cprop2_cb loop_cprop4 loop_cprop8 8 (KV.Model.SimOps.so_locs so) (KV.Model.SimOps.so_nlines so)
+            (Z.of_nat (KV.Model.SimOps.so_nlines so + 1)) (Z.of_nat (KV.Model.SimOps.so_nlines so + 2)) None
+            (map KV.Proofs.LogicSimDriversProofs.row_of (KV.Model.SimOps.so_ops so)) (map LS8.emb8 KV.Proofs.LogicSimLoopNExample.exM8d)))
+    (KV.Model.LogicSimModel.c_prop Zero KV.Model.LogicSimModel.sem8 so KV.Proofs.LogicSimLoopNExample.exM8d) /\
+  LSN.inv4 KV.Proofs.LogicSimLoopNExample.exM4d /\
+  LSN.agree4 lt0 lt1
+    (fst (c_prop_src loop_prop_cpu loop_cprop2_cb loop_cprop4 loop_cprop8 4 (KV.Model.SimOps.so_locs so) (KV.Model.SimOps.so_nlines so)
+            (Z.of_nat (KV.Model.SimOps.so_nlines so + 1)) (Z.of_nat (KV.Model.SimOps.so_nlines so + 2)) None
+            (map KV.Proofs.LogicSimDriversProofs.row_of (KV.Model.SimOps.so_ops so)) (map LSN.emb4 KV.Proofs.LogicSimLoopNExample.exM4d)))
+    (KV.Model.LogicSimModel.c_prop Zero KV.Model.LogicSimModel.sem8 so KV.Proofs.LogicSimLoopNExample.exM4d) /\
+  KV.Model.LogicSimModel.c_prop Zero KV.Model.LogicSimModel.sem8 so KV.Proofs.LogicSimLoopNExample.exM4d <> KV.Proofs.LogicSimLoopNExample.exM4d.
+Proof. exact KV.Proofs.LogicSimLoopNExample.loopx_nonvacuous. Qed.
+
+(** ---- end-to-end composition for m == 8 (Proofs/LogicSimRound8.v), PARTIAL with respect to the intended
+      C02_logicsim_source_round_is_solution: c_to_s_src 3 (c_prop_src 8 (s_to_c_src 3 L)) from the cleared memory = capture of the unique solution.
+    Proved: for every build() result with the correspondence-checked parameters of sim_case8, ANY list memory that shows the model memory after
+    s_to_c from the cleared memory (outside the scratch locations) is taken by the translated loop of c_prop, inside the pinned skeleton, to a memory
+    that holds at every PPO location outside the two scratch locations the three planes of what sim_case8 captures at that position -- hence
+    (C02_logicsim_model_correct) of the value of the UNIQUE multi-valued solution at the observed line.  Missing: the mdim = 3 instances of the
+    list-memory ties of the pinned vectorised s_to_c / c_to_s (proved for mdim = 1 only: C01_logicsim_drivers_source_is_model), and "a PPO location
+    is never c_locs[tmp_idx] / c_locs[tmp2_idx]" for build() results (side conditions l <> lt0, l <> lt1; satisfiable: second theorem). *)
+From KV Require Proofs.LogicSimRound8.
+Theorem C02_logicsim_source_round_solution_partial : forall c reuse strip so s0 s1,
+  wf_netlist c -> comb_acyclic c -> KV.Proofs.EndToEnd.gates_known c -> (strip = true -> KV.Proofs.ReuseStrip.forks_ok c) ->
+  List.length s0 = List.length (s_nodes c) -> List.length s1 = List.length (s_nodes c) ->
+  KV.Model.SimOps.build c (repeat 1%N (List.length (c_lines c) + 3)) 1%N reuse strip = Some so ->
+  exists lt0 lt1, KV.Model.SimOpsCert.so_loc so (KV.Model.SimOps.so_nlines so + 1) = Some lt0 /\
+    KV.Model.SimOpsCert.so_loc so (KV.Model.SimOps.so_nlines so + 2) = Some lt1 /\ lt0 <> lt1 /\
+    forall M0, LS8.agree8 lt0 lt1 M0 (s_to_c so s0 (repeat Zero (N.to_nat (KV.Model.SimOps.so_len so)))) ->
+    let M1 := fst (c_prop_src loop_prop_cpu loop_cprop2_cb loop_cprop4 loop_cprop8 8 (KV.Model.SimOps.so_locs so) (KV.Model.SimOps.so_nlines so)
+                     (Z.of_nat (KV.Model.SimOps.so_nlines so + 1)) (Z.of_nat (KV.Model.SimOps.so_nlines so + 2)) None
+                     (map KV.Proofs.LogicSimDriversProofs.row_of (KV.Model.SimOps.so_ops so)) M0) in
+    forall p l, p < List.length (s_nodes c) -> KV.Model.SimOpsCert.so_loc so (KV.Model.SimOpsCert.so_ppo so + p) = Some l -> l <> lt0 -> l <> lt1 ->
+      sim_case8 c reuse strip s0 s1 = Some (simulate Zero sem8 so s0 s1) /\
+      nth l M1 (pdflt 3) = code_bits (nth p (simulate Zero sem8 so s0 s1) Zero) /\
+      forall v l0, solution sem8_lut Zero c (fun q => nth q s0 Zero) v -> snode_in c p = Some l0 -> nth l M1 (pdflt 3) = code_bits (v l0).
+Proof. exact KV.Proofs.LogicSimRound8.round8_reads_solution_partial. Qed.
+
+Theorem C02_logicsim_source_round_nonvacuous : exists so lt0 lt1,
+  KV.Model.SimOps.build KV.Proofs.LogicSimLoopNExample.exD (repeat 1%N (List.length (c_lines KV.Proofs.LogicSimLoopNExample.exD) + 3)) 1%N true false = Some so /\
+  KV.Model.SimOpsCert.so_loc so (KV.Model.SimOps.so_nlines so + 1) = Some lt0 /\ KV.Model.SimOpsCert.so_loc so (KV.Model.SimOps.so_nlines so + 2) = Some lt1 /\
+  forall p, p = 1 \/ p = 2 -> p < List.length (s_nodes KV.Proofs.LogicSimLoopNExample.exD) /\ snode_in KV.Proofs.LogicSimLoopNExample.exD p <> None /\
+    exists l, KV.Model.SimOpsCert.so_loc so (KV.Model.SimOpsCert.so_ppo so + p) = Some l /\ l <> lt0 /\ l <> lt1.
+Proof. exact KV.Proofs.LogicSimRound8.round8_hyps_example. Qed.
